@@ -260,7 +260,7 @@ func runC19(c *Ctx) {
 	ws := c.Rng("writer")
 	for _, n := range lenList {
 		for _, bs := range []int{8, 16} {
-			for mode := 0; mode < 4; mode++ {
+			for mode := 0; mode < 5; mode++ {
 				wcs = append(wcs, wcase{n, bs, ws.U64(), mode})
 			}
 		}
@@ -270,7 +270,7 @@ func runC19(c *Ctx) {
 		r := mon.NewRNG(wc.seed)
 		data := r.Bytes(wc.n)
 		padded := ref.PKCS7Pad(data, wc.bs)
-		modeName := []string{"one-write", "1-byte-writes", "random-writes<=100", "large-writes<=8192"}[wc.mode]
+		modeName := []string{"one-write", "1-byte-writes", "random-writes<=100", "large-writes<=8192", "writes-around-the-1KiB-swap-area"}[wc.mode]
 		cls := fmt.Sprintf("writer/%s/len=%s/bs=%d", modeName, lcls(wc.n, wc.bs), wc.bs)
 		w := map[string]interface{}{"len": wc.n, "block": wc.bs, "write_mode": modeName, "data": mon.Hex(data)}
 		rec := &writeRecorder{}
@@ -287,8 +287,13 @@ func runC19(c *Ctx) {
 					sz = 1
 				case 2:
 					sz = 1 + r.Intn(100)
-				default:
+				case 3:
 					sz = 1 + r.Intn(8192)
+				default:
+					// a fixed cycle, rotated per case: single writes just above, at and below the writer's 1 KiB swap area, aligned
+					// to the block size and not
+					edge := []int{1025, 1029, 1500, 1023, 1024, 1027, 976, 2049, 17, 1040, 3000}
+					sz = edge[(len(sizes)+i)%len(edge)]
 				}
 				if off+sz > len(padded) {
 					sz = len(padded) - off
